@@ -5,12 +5,15 @@
    Proved here for the models that exist (SubRip reader over ANY token list - any bytes under any schedule -
    and writer over any cue list; the cue-list operations are total Gallina functions; the WebVTT reader and
    writer; the SSA/ASS reader over any token list and writer over any document value and map order; the teletext reader from the delivered PES payloads on - i.e. for every stream the third-party
+   writer; the EBU STL reader on any byte string, in one shot or with its blocks read under any delivery schedule, and the
+   STL writer on any metadata / cue list / clock value; the teletext reader from the delivered PES payloads on - i.e. for every stream the third-party
    demultiplexer gets through, whatever bytes the payloads hold).  For the formats whose models are not referenced
    below the property is decided on the implementation by the harness (structure-aware mutation under recover() and a
    watchdog), which is exploration, not proof. *)
 From Coq Require Import List NArith.
 From Astisub Require Import Kit.Base Kit.Scan Model.Srt Model.Vtt Model.Ttx Proofs.SrtIOProofs Proofs.VttIOProofs Proofs.TtxTotal.
 From Astisub Require Import Model.Ssa Proofs.SsaIgnore.
+From Astisub Require Import Model.Stl Model.StlIO Proofs.StlBlocks Proofs.StlIOProofs.
 Import ListNotations.
 
 Theorem C08_srt_reader_total : forall (ls : list (list N)) (scan_err : bool) (p : N), read_srt_lines ls scan_err <> Panic p.
@@ -34,6 +37,17 @@ Theorem C08_ssa_reader_total : forall (ls : list (list N)) (scan_err : bool) (p 
 Proof. exact read_no_panic. Qed.
 Theorem C08_ssa_writer_total : forall d order (p : N), write_ssa d order <> Panic p.
 Proof. exact write_no_panic. Qed.
+
+(* EBU STL: any bytes (one shot, or blocks read under any schedule), any writer input *)
+Theorem C08_stl_reader_total : forall (ign : bool) (data : list N) (p : N), read_stl ign data <> Panic p.
+Proof. exact read_total. Qed.
+Theorem C08_stl_reader_total_schedule : forall (ign : bool) (data : list N) (counts : list nat) (p : N), read_stl_sched ign data counts <> Panic p.
+Proof. intros ign data counts p. rewrite read_stl_schedule. apply read_total. Qed.
+Theorem C08_stl_writer_total : forall now md items (p : N), write_stl now md items <> Panic p.
+Proof. exact write_total. Qed.
+Print Assumptions C08_stl_reader_total.
+Print Assumptions C08_stl_reader_total_schedule.
+Print Assumptions C08_stl_writer_total.
 
 (* teletext: any page option, any list of delivered (time, payload) pairs with arbitrary bytes *)
 Theorem C08_teletext_reader_total : forall page ds (p : N), ttx_feed page ds <> Panic p.
